@@ -234,11 +234,13 @@ def r1(ctx):
         f = ctx.anchor("R1", r"^ast_grep_config::check_var::%s$" % fname)
         if not f:
             continue
-        oks = ok_blocks(f, "Ok")
+        # success exits: `Ok(..)` stored into the return place, or a tail call whose Result is returned as it is
+        oks = list(ok_blocks(f, "Ok")) + [c.bb for c in f.calls if c.bb in f.live_blocks and c.dest and c.dest[0] == 0 and not c.dest[1] and c.name != "from_residual"]
         fam_calls = list(f.calls)
         for n in needs:
             cs = [c for c in fam_calls if c.name == n]
-            good = bool(cs) and bool(oks) and all(any(f.dominates(c.bb, b) for c in cs) for b in oks)
+            from ..query import must_pass
+            good = bool(cs) and bool(oks) and all(any(f.dominates(c.bb, b) or c.bb == b for c in cs) or must_pass(f, [c.bb for c in cs], b) for b in oks)
             ctx.ob("R1", "%s/%s dominates Ok" % (fname, n), good, "call of %s %s every Ok return of %s" % (n, "dominates" if good else "does NOT dominate", fname), where=f.loc())
     # rewriters
     rr = prog.find_fns(r"rule_config::.*register_rewriters$")
